@@ -4,6 +4,7 @@ stdin: {"ops": [[op, arg], ...], "globals": bool}
   ["construct", spec]   build entities + AquaCropModel, do not run
   ["init", spec]        ... and _initialize()
   ["run", spec]         ... and run_model(till_termination=True); digest of all four tables
+  ["interleave", {"specs": [...], "chunks": [...]}]   live models stepped alternately; list of digests
   ["pool", {"specs": [...], "size": n}]   run the specs in a multiprocessing pool of n workers; list of digests
 stdout: one line 'ISO-JSON {...}'"""
 import hashlib
@@ -123,6 +124,21 @@ def main():
                 m.run_model(till_termination=True)
                 keep.append(m)
                 out["digests"].append(tables_digest(tables(m)))
+            elif op == "interleave":
+                # two (or more) live models stepped alternately in one process: [{specs: [...], chunks: [...]}]
+                ms = [S.make_model(sp) for sp in arg["specs"]]
+                for m in ms:
+                    m._initialize()
+                guard = 0
+                while not all(m._clock_struct.model_is_finished for m in ms):
+                    for m, k in zip(ms, arg["chunks"]):
+                        if not m._clock_struct.model_is_finished:
+                            m.run_model(num_steps=int(k), initialize_model=False)
+                    guard += 1
+                    if guard > 100000:
+                        raise RuntimeError("interleaving does not terminate")
+                keep.extend(ms)
+                out["digests"].append([tables_digest(tables(m)) for m in ms])
             elif op == "pool":
                 import multiprocessing as mp
 
